@@ -29,7 +29,8 @@ ASSUMPTIONS = ["model = contract in pyairtouch/api.py + vendor PDFs (refmodel.py
                "spill+bypass both set, battery bit of a sensorless zone, error text before the "
                "first answer of an error episode: undecided"]
 REQUIRED_OBS = ["one_slow_subscriber_sessions", "slow_subscriber_sessions", "frames_compared", "ac_values_seen", "zone_values_seen", "timer_frames",
-                "error_episodes", "version_frames", "ia_fan_values"]
+                "error_episodes", "version_frames", "ia_fan_values",
+                "frames_for_a_unit_installed_between_two_lives"]
 SOAK = True   # also judged by the whole-run monitors of the soak sessions (vf/soak.py)
 BUDGET = {"quick": 100, "thorough": 1500}
 
